@@ -3246,6 +3246,14 @@ The what argument tells us what sort of state is expected (allowed values are de
 
         productsToRemove = _set(productsToRemove) # remove duplicates
         #
+        # undeclare() refuses a product that is setup; find that out before anything is removed, not half-way
+        #
+        if not self.force:
+            for product in productsToRemove:
+                if self.isSetup(product):
+                    raise EupsException("Product %s %s is already setup; specify force to proceed" %
+                                        (product.name, product.version))
+        #
         # Actually wreak destruction. Don't do this in _remove as we're relying on the static userInfo
         #
         default_yn = "y"                    # default reply to interactive question
